@@ -1,4 +1,4 @@
 SPECIFICATION Spec
 CONSTANTS
-  WorldSel = {0}
+  WorldSel = {1, 2, 3, 4, 5, 6}
 INVARIANTS EmitWorld Emit
